@@ -36,13 +36,16 @@ func verifOut(v interface{}) {
 	os.Stdout.Write(append(b, '\n'))
 }
 
-// argv (VERIF_ARGS): <output dir> <socket> <number of connections>
+// argv (VERIF_ARGS): <output dir> <socket> <number of connections> [nowait]
+// nowait: like runMain, the next connection is accepted as soon as handleConn returns, while the writer
+// goroutine of the previous one may still be draining its queue; all writers are awaited at the end.
 func verifServe() int {
 	args := strings.Fields(os.Getenv("VERIF_ARGS"))
 	if len(args) < 3 {
 		return 2
 	}
 	conns, _ := strconv.Atoi(args[2])
+	nowait := len(args) > 3 && args[3] == "nowait"
 	conf := &Config{DeviceID: 42, DeviceName: "verif-device", FrameInput: args[1], OutputDir: args[0]}
 	base := runtime.NumGoroutine()
 	for i := 0; i < conns; i++ {
@@ -61,7 +64,7 @@ func verifServe() int {
 		err = handleConn(conn, conf, false)
 		// the writer goroutine drains its queue and closes the file on its own; wait for it
 		deadline := time.Now().Add(60 * time.Second)
-		for runtime.NumGoroutine() > base && time.Now().Before(deadline) {
+		for (!nowait || i == conns-1) && runtime.NumGoroutine() > base && time.Now().Before(deadline) {
 			time.Sleep(time.Millisecond)
 		}
 		verifOut(map[string]interface{}{"ev": "conn-end", "err": fmt.Sprint(err), "writer_done": runtime.NumGoroutine() <= base})
